@@ -104,6 +104,24 @@ Proof.
   intros p Hp. rewrite forallb_forall in H1. apply mem_In, H1, Hp.
 Qed.
 
+Lemma sels_ok_ok_inv g cov C S frs : forall rt r sels,
+  sels_ok g cov C S frs true rt r sels = true -> no_spread g sels = true ->
+  exists g' fns, flatten g' S frs rt r sels = Some fns /\ keys_ok C (map field_key fns) = true /\
+                 (cov = true -> NoDup (map (fun f => py_field_name C (field_key f)) fns)).
+Proof.
+  intros rt r sels H _. destruct (sels_ok_inv _ _ _ _ _ _ _ _ _ H) as [g' [fns [_ [H1 [H2 [H3 _]]]]]].
+  exists g', fns. auto.
+Qed.
+
+Lemma keys_ok_forall C (fns : list fnode) :
+  keys_ok C (map field_key fns) = true ->
+  forall f, In f fns -> String.eqb (py_field_name C (field_key f)) (field_key f)
+                        || negb (mem (py_field_name C (field_key f)) (map field_key fns)) = true.
+Proof.
+  unfold keys_ok. intros H f Hf. apply andb_true_iff in H as [_ H]. rewrite forallb_forall in H.
+  apply (H (field_key f)). apply in_map, Hf.
+Qed.
+
 Section Level.
   Variables (C : cfg) (S : schema) (frs : list fragdef).
   Variables (fuel' g : nat) (cov : bool) (cs : list pclass).
@@ -115,6 +133,11 @@ Section Level.
   Variable chk : (ann -> json -> bool) -> option (list pfield) -> json -> bool.
   Variable Wrec : ann -> json -> bool.
   Variable mro : string -> option (list pfield).
+  (* ok: the guard required of nested selection sets (sels_ok g cov C S frs true, or a larger language) *)
+  Variable ok : string -> string -> list sel -> bool.
+  Hypothesis ok_inv : forall rt r sels, ok rt r sels = true -> no_spread g sels = true ->
+      exists g' fns, flatten g' S frs rt r sels = Some fns /\ keys_ok C (map field_key fns) = true /\
+                     (cov = true -> NoDup (map (fun f => py_field_name C (field_key f)) fns)).
   Hypothesis W_opt : forall a j, W (AOpt a) j = is_null j || W a j.
   Hypothesis W_list : forall a j, W (AList a) j = match j with JArr l => forallb (W a) l | _ => false end.
   Hypothesis Q_arr : forall l, Q (JArr l) -> forall x, In x l -> Q x.
@@ -131,7 +154,7 @@ Section Level.
   Hypothesis fuel_pos : exists f2, fuel' = Datatypes.S f2.
   Hypothesis W_class : forall pub cn2 rt2 r2 sels2 at2 tvs out2 pub2 fc kv,
       parse_type_def fuel' C S frs pub cn2 r2 sels2 at2 [] (Some tvs) = Ok (out2, pub2, false) ->
-      sels_ok g cov C S frs true rt2 r2 sels2 = true -> In rt2 tvs ->
+      ok rt2 r2 sels2 = true -> In rt2 tvs ->
       (at2 = true -> has_typename sels2 = true) -> table_ok cs out2 ->
       obj_conf fc S frs rt2 sels2 kv = true ->
       Q (JObj kv) -> chk Wrec (mro cn2) (JObj kv) = true.
@@ -161,7 +184,7 @@ Section Level.
   Lemma abstract_value base sub f sc x ctx pub0 exc pub1 k' kv' :
     (exists ifs fs, lookup_type S base = Some (DInterface ifs fs)) \/
     (exists ms, lookup_type S base = Some (DUnion ms)) ->
-    abs_ok (sels_ok g cov C S frs true) g cov S base sub = true ->
+    abs_ok ok g cov S base sub = true ->
     fn_mixins f = [] ->
     named_ann C S frs fuel' (Some sub) base false sc false = Ok (x, ctx) ->
     subs_run (parse_type_def fuel' C S frs) S ctx f sub (x_related ctx) pub0 exc pub1 false ->
@@ -226,7 +249,7 @@ Section Level.
     - rewrite W_cls. exact Hchk.
     - rewrite W_uni. cbn [cls_step].
       (* the response carries __typename = rt *)
-      destruct (sels_ok_inv _ _ _ _ _ _ _ _ _ Hvar) as [g' [fns0 [Eg [Hfl0 [Hkeys0 [Hnames0 Hfields0]]]]]].
+      destruct (ok_inv _ _ _ Hvar Hns) as [g' [fns0 [Hfl0 [Hkeys0 Hnames0]]]].
       destruct (obj_conf_inv _ _ _ _ _ _ C _ _ _ Hconf Hfl0 Hkeys0) as [Hkv0 Hspec0].
       destruct (has_typename_flatten _ _ _ _ _ _ _ Hht Hfl0) as [ms0 Htn0].
       assert (Hjl : jlookup "__typename" kv' = Some (JStr rt)).
@@ -284,7 +307,7 @@ Section Level.
   Qed.
 
   Lemma field_value cn rt r tv nested f pf ctx pub0 exc pub1 k v :
-    field_ok (sels_ok g cov C S frs true) g cov S nested rt r f = true -> tv_ok nested rt tv ->
+    field_ok ok g cov S nested rt r f = true -> tv_ok nested rt tv ->
     field_pf C S frs fuel' cn r tv f = Ok (pf, ctx) ->
     parse_subs (parse_type_def fuel' C S frs) S ctx f pub0 = Ok (exc, pub1, false) ->
     table_ok cs exc -> Q v -> value_conf rt f k v ->
@@ -396,11 +419,14 @@ Section Level.
     field_check W kv pf = true /\
     (forall v, jlookup (field_key f) kv = Some v -> W (p_ann pf) v = true).
 
-  Lemma level_facts cn rt r tv nested fns pub pfl extra pub' k kv :
+  Lemma level_facts cn rt r tv nested fns pub pfl extra pub' k kv (K : list string) :
     fields_run (parse_type_def fuel' C S frs) C S frs fuel' cn r tv fns pub pfl extra pub' false ->
-    forallb (field_ok (sels_ok g cov C S frs true) g cov S nested rt r) fns = true ->
-    keys_ok C (map field_key fns) = true -> tv_ok nested rt tv -> table_ok cs extra ->
-    (forall p, In p kv -> In (fst p) (map field_key fns)) ->
+    forallb (field_ok ok g cov S nested rt r) fns = true ->
+    (* K: the response keys of the whole object (own fields and, with mixins, the base classes') *)
+    (forall f, In f fns -> String.eqb (py_field_name C (field_key f)) (field_key f)
+                           || negb (mem (py_field_name C (field_key f)) K) = true) ->
+    tv_ok nested rt tv -> table_ok cs extra ->
+    (forall p, In p kv -> In (fst p) K) ->
     forallb (key_spec (conf_val k S frs) S rt kv) fns = true ->
     (forall p, In p kv -> Q (snd p)) ->
     Forall2 (field_facts kv) fns pfl.
@@ -424,8 +450,7 @@ Section Level.
       destruct (String.eqb (py_field_name C (field_key f)) (field_key f)) eqn:E; [reflexivity|].
       apply jlookup_None_notin. intro Hm. apply in_map_iff in Hm. destruct Hm as [p [Hp1 Hp2]].
       apply Hkv in Hp2. rewrite Hp1 in Hp2.
-      unfold keys_ok in Hkeys. apply andb_true_iff in Hkeys as [_ Hkeys].
-      rewrite forallb_forall in Hkeys. specialize (Hkeys (field_key f) (in_map field_key _ _ Hin)).
+      specialize (Hkeys f Hin).
       rewrite E in Hkeys. simpl in Hkeys. apply negb_true_iff, mem_false_In in Hkeys. contradiction. }
     rewrite Hal. subst pf. cbn [p_default_none mk_pfield]. rewrite Hc, andb_true_r.
     (* the typename literal is never conditional *)
@@ -535,7 +560,9 @@ Proof.
   fold n1.
   eapply (level_accepts C (accepts (Datatypes.S n1) cs (schema_enums S))).
   eapply (level_facts C S frs fuel g' cov cs (accepts (Datatypes.S n1) cs (schema_enums S)) (fun _ => True)
-                      class_accepts (accepts n1 cs (schema_enums S)) (mro_fields n1 cs));
+                      class_accepts (accepts n1 cs (schema_enums S)) (mro_fields n1 cs)
+                      (sels_ok g' cov C S frs true) (sels_ok_ok_inv g' cov C S frs))
+    with (K := map field_key fns);
     try eassumption; try reflexivity; auto.
   - intros m j H1 H2. apply (scalar_leaf_accepts C S); auto.
   - intros m vs j H1 H2. eapply enum_leaf_accepts; eauto.
@@ -547,6 +574,7 @@ Proof.
     eapply IH; eauto.
     + right. eauto.
     + unfold n1. lia.
+  - apply keys_ok_forall, Hkeys.
   - eapply table_ok_incl; [exact Htab|]. rewrite Hout. apply incl_tl, incl_refl.
 Qed.
 
@@ -596,7 +624,9 @@ Proof.
   simpl in Hwf. apply andb_true_iff in Hwf as [Hnd Hmem]. rewrite forallb_forall in Hmem.
   eapply (level_covers C (covers (Datatypes.S n1) cs)); eauto.
   - eapply (level_facts C S frs fuel g' true cs (covers (Datatypes.S n1) cs) (fun j => jwf j = true)
-                        class_covers (covers n1 cs) (mro_fields n1 cs));
+                        class_covers (covers n1 cs) (mro_fields n1 cs)
+                        (sels_ok g' true C S frs true) (sels_ok_ok_inv g' true C S frs))
+      with (K := map field_key fns);
       try eassumption; try reflexivity; auto.
     + intros l Hl' x Hx. simpl in Hl'. rewrite forallb_forall in Hl'. apply Hl', Hx.
     + intros m j _ _. apply scalar_ann_cov.
@@ -607,6 +637,7 @@ Proof.
       eapply IH; eauto.
       * right. eauto.
       * unfold n1. lia.
+    + apply keys_ok_forall, Hkeys.
     + eapply table_ok_incl; [exact Htab|]. rewrite Hout. apply incl_tl, incl_refl.
   - eapply keys_ok_nodup; eauto.
   - apply nodupb_NoDup, Hnd.
